@@ -10,6 +10,8 @@
 //! [`Write`]: https://doc.rust-lang.org/std/io/trait.Write.html
 //! [`BufWriter`]: https://doc.rust-lang.org/std/io/struct.BufWriter.html
 
+use rio_api::formatter::TriplesFormatter;
+use rio_api::model::{Literal, Term, Triple};
 use rio_xml::RdfXmlFormatter;
 use sophia_api::serializer::{Stringifier, TripleSerializer};
 use sophia_api::source::{SinkError, StreamResult, TripleSource};
@@ -90,11 +92,49 @@ where
         } else {
             RdfXmlFormatter::new(&mut self.write)
         };
-        let mut tf = res.map_err(SinkError)?;
+        let mut tf = CheckedFormatter(res.map_err(SinkError)?);
         rio_format_triples(&mut tf, source)?;
-        tf.finish().map_err(SinkError)?;
+        tf.0.finish().map_err(SinkError)?;
         Ok(self)
     }
+}
+
+/// A wrapper around [`RdfXmlFormatter`],
+/// failing on the triples that RDF/XML can not represent
+/// (which [`RdfXmlFormatter`] would blindly write, producing an invalid document).
+struct CheckedFormatter<W: io::Write>(RdfXmlFormatter<W>);
+
+impl<W: io::Write> TriplesFormatter for CheckedFormatter<W> {
+    type Error = io::Error;
+
+    fn format(&mut self, triple: &Triple<'_>) -> io::Result<()> {
+        if let Term::Literal(
+            Literal::Simple { value }
+            | Literal::LanguageTaggedString { value, .. }
+            | Literal::Typed { value, .. },
+        ) = triple.object
+        {
+            if let Some(c) = value.chars().find(|c| !is_xml_char(*c)) {
+                return Err(unsupported(format!(
+                    "character U+{:04X} (in {})",
+                    c as u32, triple.object
+                )));
+            }
+        }
+        self.0.format(triple)
+    }
+}
+
+fn unsupported(what: String) -> io::Error {
+    io::Error::new(
+        io::ErrorKind::InvalidInput,
+        format!("RDF/XML can not represent {what}"),
+    )
+}
+
+/// Whether `c` matches the [`Char`](https://www.w3.org/TR/xml/#NT-Char) production of XML 1.0
+const fn is_xml_char(c: char) -> bool {
+    matches!(c, '\t' | '\n' | '\r' | ' '..='\u{D7FF}' | '\u{E000}'..='\u{FFFD}' | '\u{10000}'..)
 }
 
 impl RdfXmlSerializer<Vec<u8>> {
